@@ -7,6 +7,7 @@ require (
 	github.com/kubewharf/kubebrain v0.0.0
 	github.com/kubewharf/kubebrain-client v0.2.1
 	github.com/tikv/client-go/v2 v2.0.1
+	go.etcd.io/etcd/api/v3 v3.5.2
 	google.golang.org/grpc v1.43.0
 	k8s.io/apimachinery v0.20.4
 	k8s.io/client-go v0.20.2
@@ -53,9 +54,9 @@ require (
 	github.com/prometheus/common v0.32.1 // indirect
 	github.com/prometheus/procfs v0.7.3 // indirect
 	github.com/remyoudompheng/bigfft v0.0.0-20200410134404-eec4a21b6bb0 // indirect
+	github.com/spf13/cast v1.3.0 // indirect
 	github.com/tikv/pd/client v0.0.0-20220216070739-26c668271201 // indirect
 	github.com/twmb/murmur3 v1.1.3 // indirect
-	go.etcd.io/etcd/api/v3 v3.5.2 // indirect
 	go.etcd.io/etcd/client/pkg/v3 v3.5.2 // indirect
 	go.etcd.io/etcd/client/v3 v3.5.2 // indirect
 	go.uber.org/atomic v1.9.0 // indirect
